@@ -28,8 +28,10 @@ try:
         _raw = json.load(_fh)
     KNOWN = {k: set(v['functions']) for k, v in _raw.items()}
     KNOWN_NAMES = {k: set(v['names']) for k, v in _raw.items()}
+    KNOWN_FP = {k: v.get('fingerprints', {}) for k, v in _raw.items()}
 except FileNotFoundError:  # inventory not generated: the pass is off
     KNOWN = KNOWN_NAMES = None
+    KNOWN_FP = {}
 
 PURE_BUILTINS = {'len', 'tuple', 'list', 'set', 'frozenset', 'dict', 'sorted', 'min', 'max', 'sum', 'abs', 'int', 'bool', 'str', 'range',
                  'enumerate', 'zip', 'reversed', 'isinstance', 'any', 'all', 'divmod', 'float', 'bytes', 'repr', 'hash', 'id', 'type', 'iter'}
@@ -965,6 +967,81 @@ def _inline_constants(tree, known_names):
     return sorted(used)
 
 
+def scoped_functions(tree):
+    """(scope-qualified name, node) for module-level functions and methods of module-level classes"""
+    out = []
+    for st in tree.body:
+        if isinstance(st, FUNC):
+            out.append((st.name, st))
+        elif isinstance(st, ast.ClassDef):
+            for m in st.body:
+                if isinstance(m, FUNC):
+                    out.append((f'{st.name}.{m.name}', m))
+    return out
+
+
+def fingerprint(fn):
+    """name-free structural summary of a function body: counts of node kinds, attribute names, constants and called names (not the function's own name,
+    not local variable names)"""
+    c = {}
+    for n in ast.walk(fn):
+        k = None
+        if isinstance(n, ast.Attribute):
+            k = 'A:' + n.attr
+        elif isinstance(n, ast.Constant) and isinstance(n.value, (int, str)) and not isinstance(n.value, bool):
+            k = 'C:' + repr(n.value)[:30]
+        elif isinstance(n, ast.Call) and isinstance(n.func, ast.Name):
+            k = 'F:' + n.func.id
+        elif isinstance(n, (ast.stmt, ast.expr)) and not isinstance(n, (ast.Name, ast.Load, ast.Store)):
+            k = 'N:' + type(n).__name__
+        if k:
+            c[k] = c.get(k, 0) + 1
+    c['P:%d' % (len(fn.args.args) + len(fn.args.kwonlyargs))] = 1
+    return c
+
+
+def _similarity(a, b):
+    inter = sum(min(a.get(k, 0), b.get(k, 0)) for k in set(a) | set(b))
+    union = sum(max(a.get(k, 0), b.get(k, 0)) for k in set(a) | set(b))
+    return inter / union if union else 0.0
+
+
+def undo_private_renames(tree, modname):
+    """a PRIVATE function / method of the confirmed tree that is gone while a new one with (nearly) the same body appeared in the same scope was renamed:
+    give it its old name back, in the definition and in every reference inside this module, so that the rules find their anchor. Only names that
+    start with an underscore (nobody outside the module may rely on them), only unambiguous matches (similarity >= 0.8, runner-up < 0.6)."""
+    fps = KNOWN_FP.get(modname)
+    if not fps:
+        return []
+    present = dict(scoped_functions(tree))
+    missing = [q for q in fps if q not in present and q.rsplit('.', 1)[-1].startswith('_') and not q.rsplit('.', 1)[-1].endswith('__')]
+    if not missing:
+        return []
+    known_here = set(fps)
+    fresh = {q: fn for q, fn in present.items() if q not in known_here and q.rsplit('.', 1)[-1].startswith('_')}
+    done = []
+    for q in missing:
+        scope = q.rsplit('.', 1)[0] if '.' in q else ''
+        cands = sorted(((_similarity(fps[q], fingerprint(fn)), q2) for q2, fn in fresh.items() if (q2.rsplit('.', 1)[0] if '.' in q2 else '') == scope), reverse=True)
+        if not cands or cands[0][0] < 0.8 or (len(cands) > 1 and cands[1][0] >= 0.6):
+            continue
+        new_q = cands[0][1]
+        old, new = q.rsplit('.', 1)[-1], new_q.rsplit('.', 1)[-1]
+        all_names = {n.id for n in ast.walk(tree) if isinstance(n, ast.Name)} | {n.attr for n in ast.walk(tree) if isinstance(n, ast.Attribute)}
+        if old in all_names:
+            continue  # the old name is still used for something else
+        for n in ast.walk(tree):
+            if isinstance(n, FUNC) and n.name == new:
+                n.name = old
+            elif isinstance(n, ast.Name) and n.id == new:
+                n.id = old
+            elif isinstance(n, ast.Attribute) and n.attr == new:
+                n.attr = old
+        fresh.pop(new_q)
+        done.append(f'{new}->{old}')
+    return done
+
+
 def _functions_postorder(node, out):
     for ch in ast.iter_child_nodes(node):
         _functions_postorder(ch, out)
@@ -982,6 +1059,7 @@ def normalise_module(tree, modname, known=None):
         known_names = KNOWN_NAMES[modname]
     done = []
     if known_names is not None:
+        done.extend(undo_private_renames(tree, modname))
         tables = new_tables(tree, known_names)
         if tables:
             t = _Tables(tables)
